@@ -51,16 +51,27 @@ def run(ctx, report):
                      {"witness": wu} if wu else None, "3")
     else:
         raise AnalysisError("Size.from_string: named groups 'value'/'unit' not found")
-    # the failure branch raises the syntax error
-    raises = [n for n in walk_no_nested(fn.node) if isinstance(n, ast.Raise)]
-    ok = any(isinstance(r.exc, ast.Call) and call_name(r.exc) == "CaptionReadSyntaxError" for r in raises)
-    guarded = False
-    for n in walk_no_nested(fn.node):
-        if isinstance(n, ast.If) and isinstance(n.test, ast.UnaryOp) and isinstance(n.test.op, ast.Not) \
-                and any(isinstance(s, ast.Raise) for s in n.body):
-            guarded = True
-    report.check(ok and guarded, "R-MUSTRAISE", fn, "no match -> raise CaptionReadSyntaxError",
-                 None if ok and guarded else "raise of CaptionReadSyntaxError under `if not match` not found", "3")
+    # no match -> the syntax error, a match -> a value: Size.from_string folded on strings inside and outside the reference language
+    from ..core.constfold import Folder as _F0, FoldRaise as _FR0
+    F0 = _F0(idx)
+    F0.object_classes = "*"
+    pool = ["", " ", "px", "%", "12", "12 px", " 12px", "12px ", "-1px", "+1px", "1e3px", "12pxx", "1..2px", ".5px", "5.px", "5%5", "%5",
+            "abc", "12 %", "1,5px", "0", "00", "0.0", "12px", "1.5em", "100%", "3c", "7pt", "0.5%", "0px", "007px", "12PX", "12Px", "1.2.3em"]
+    wrong = []
+    for text in pool:
+        inside = ref.accepts(text)
+        try:
+            r0 = F0.eval_in("pycaption.geometry", ast.parse("Size.from_string(t)", mode="eval").body, {"t": text})
+            outcome = "a value"
+        except _FR0 as e0:
+            outcome = e0.exc_name
+        except AnalysisError as e0:
+            raise AnalysisError(f"Size.from_string cannot be folded on {text!r}: {e0}")
+        want = "a value" if inside else "CaptionReadSyntaxError"
+        if outcome != want:
+            wrong.append({"string": text, "outcome": outcome, "required": want})
+    report.check(not wrong, "R-MUSTRAISE", fn, f"Size.from_string on {len(pool)} strings inside and outside the size language: a string outside "
+                 "it raises CaptionReadSyntaxError, a string inside it gives a value", {"mismatches": wrong[:4]}, "3")
 
     # clause 4 ------------------------------------------------------------
     sfn = idx.get_function(GEOM, "Size.__str__")
